@@ -4,6 +4,12 @@ import json, sys
 pid = sys.argv[1]
 wt = sys.argv[2] if len(sys.argv) > 2 else f"/tmp/mut/{pid}"
 extra = sys.argv[3] if len(sys.argv) > 3 else ""
+import os
+prev = f"/verif/seeded/{pid}/meta.json"
+if os.path.exists(prev) and "/mut2/" in wt:
+    pm = json.load(open(prev))
+    extra += f"\nAn earlier volunteer already produced this change for the same property: \"{pm.get('summary','')[:400]}\". Produce something DIFFERENT: another mechanism, another part of the code, another kind of trigger.\n"
+extra += "\nIMPORTANT: do NOT use `git stash` (the stash is shared between worktrees and other people are working in sibling worktrees). To test without your change use: `git diff -- src > /tmp/" + pid + "_mine.patch && git checkout -- src && <run demo> ; git apply /tmp/" + pid + "_mine.patch`.\n"
 p = next(json.loads(l) for l in open('/verif/properties.jsonl') if json.loads(l)['id'] == pid)
 print(f"""You are helping test a verification effort for the Rust crate Clarabel.rs (an interior-point conic solver). You have your own scratch git worktree of the repository at {wt} (a detached checkout; work ONLY inside it; never touch /repo or /verif and do not read /verif).
 
@@ -17,7 +23,7 @@ Your task: produce ONE realistic change to the library source (under {wt}/src) t
  (1) the crate still compiles (`cd {wt} && cargo build --offline`),
  (2) the existing test suite still passes unchanged (`cd {wt} && cargo test --workspace --offline 2>&1 | grep -E "test result|FAILED"` must show no failures),
  (3) the breakage needs something specific to manifest - a particular input shape or value, an unusual setting, a multi-step sequence of operations, a particular dimension threshold, or two cooperating sites that each look fine alone - NOT something ordinary use would expose at once, and NOT something trivially visible like a panic on every call. Think of the kind of subtle bug a maintainer could plausibly introduce in a refactoring (dropped scaling factor in one branch, off-by-one in an index map for one layout, stale cache after one kind of update, wrong sign in a rarely taken branch, boundary comparison flipped, etc.).
- (4) you provide a demonstration: a small Rust integration test file (placed at {wt}/tests/demo_{pid.lower()}.rs, using only the crate's public API; note `clarabel::solver::core` internals are crate-private, but the repo has an optional cargo feature `verif` exposing `clarabel::verif::*` re-exports of the cone types/traits and some wrappers - you may use it with `--features verif` if you need internals) that FAILS with your change applied and PASSES on the original code. Verify both: run it with your change, then `git stash` the src change (keep the test), run it again, then `git stash pop`.
+ (4) you provide a demonstration: a small Rust integration test file (placed at {wt}/tests/demo_{pid.lower()}.rs, using only the crate's public API; note `clarabel::solver::core` internals are crate-private, but the repo has an optional cargo feature `verif` exposing `clarabel::verif::*` re-exports of the cone types/traits and some wrappers - you may use it with `--features verif` if you need internals) that FAILS with your change applied and PASSES on the original code. Verify both: run it with your change, then temporarily revert the src change (keep the test), run it again, then re-apply your change.
 
 {extra}
 Do not edit any existing test. Do not commit. Keep the source change small (ideally <15 lines). When done, write these files:
